@@ -48,6 +48,23 @@ theorem nondeterminism_confined :
     nondetReach.all (fun e =>
       ["app.New", "x/goat/keeper.Keeper.PrepareProposalHandler", "x/goat/keeper.Keeper.ProcessProposalHandler"].contains e.1) = true := by decide
 
+/-- **how the application configures baseapp**: `app.New` installs the ante handler and the two proposal handlers and
+    nothing else — no optimistic execution (which would run FinalizeBlock, with its engine notification, for proposals that
+    are never decided), no pre-blocker, no other mempool, no further baseapp option.  The model's whole-application layer
+    (Driver: ante → handler per transaction, hooks, `Finalized` once per finalised block) mirrors exactly this wiring. -/
+theorem app_wiring_exact :
+    appWiring = [("app.New", "baseapp.SetAnteHandler"), ("app.New", "baseapp.SetPrepareProposal"),
+                 ("app.New", "baseapp.SetProcessProposal")] := by decide
+
+/-- **the order of the block hooks** the model's `a.blockstart` / `a.end` steps mirror: BeginBlock = locking only;
+    EndBlock = relayer (election), goat (engine notification), locking (validator updates); no pre-blocker; genesis is
+    imported in the order auth, relayer, bitcoin, locking, goat. -/
+theorem module_order_exact :
+    moduleOrder = [("BeginBlockers", "0:locking"),
+                   ("EndBlockers", "0:relayer"), ("EndBlockers", "1:goat"), ("EndBlockers", "2:locking"),
+                   ("InitGenesis", "0:auth"), ("InitGenesis", "1:relayer"), ("InitGenesis", "2:bitcoin"),
+                   ("InitGenesis", "3:locking"), ("InitGenesis", "4:goat")] := by decide
+
 /-! ### C08: the goroutines of the proposal handlers do not conflict -/
 
 def conflicts (acc : List (String × String × String × String)) : List (String × String) :=
